@@ -305,6 +305,13 @@ struct ScriptWs {
     waker: Option<Waker>,
     closed: bool,
     silent_after_close: bool,
+    /// from this time on (ms) the sink accepts nothing more: `poll_ready` stays pending (the peer has
+    /// stopped reading and the transport's send buffer is full)
+    block_at: Option<u64>,
+    /// … and closing the sink has to flush first, so `poll_close` stays pending too
+    wedge_close: bool,
+    /// frames for the endpoint produced by the scripted peer (the answer to a `Connect`)
+    inbound: std::collections::VecDeque<Message>,
     shared: Arc<Mutex<Shared>>,
 }
 
@@ -312,14 +319,32 @@ impl ScriptWs {
     fn ms(&self) -> u64 {
         u64::try_from(Instant::now().saturating_duration_since(self.start).as_millis()).expect("ms")
     }
+    fn blocked(&self) -> bool {
+        self.block_at.is_some_and(|b| self.ms() >= b)
+    }
 }
 
 impl WebSocket for ScriptWs {
     fn poll_ready_unpin(&mut self, _cx: &mut Context<'_>) -> Poll<Result<(), Error>> {
+        if self.blocked() {
+            // never woken: the peer never reads again
+            return Poll::Pending;
+        }
         Poll::Ready(Ok(()))
     }
     fn start_send_unpin(&mut self, item: Message) -> Result<(), Error> {
         let now = self.ms();
+        if let Message::Binary(b) = &item {
+            // the scripted peer accepts every stream: `Connect` is answered with `Acknowledge` (window 60000)
+            if b.len() >= 5 && b[0] & 0x0f == 0 {
+                let mut f = vec![0x71, b[1], b[2], b[3], b[4]];
+                f.extend_from_slice(&60_000u32.to_be_bytes());
+                self.inbound.push_back(Message::Binary(f.into()));
+                if let Some(w) = self.waker.take() {
+                    w.wake();
+                }
+            }
+        }
         if matches!(item, Message::Ping) {
             self.shared.lock().expect("lock").pings.push(now);
             let d = self.delays.get(self.nping).copied().unwrap_or(self.rest);
@@ -348,6 +373,10 @@ impl WebSocket for ScriptWs {
             sh.close_at = Some(now);
         }
         drop(sh);
+        if self.wedge_close && self.blocked() {
+            // the close has to flush what the transport holds, and nothing leaves any more
+            return Poll::Pending;
+        }
         self.closed = true;
         if let Some(w) = self.waker.take() {
             w.wake();
@@ -362,6 +391,9 @@ impl WebSocket for ScriptWs {
             }
             // the peer completes the close handshake
             return Poll::Ready(None);
+        }
+        if let Some(m) = self.inbound.pop_front() {
+            return Poll::Ready(Some(Ok(m)));
         }
         loop {
             let now = self.ms();
@@ -417,6 +449,13 @@ struct Case {
     horizon: u64,
     /// the transport stays silent after the endpoint closed it (instead of completing the close)
     silent: bool,
+    /// the sink accepts nothing from this time on (the peer has stopped reading; `poll_ready` pending for ever)
+    block: Option<u64>,
+    /// … and `poll_close` is pending too while the sink is blocked (a close that must flush first)
+    wedge: bool,
+    /// times at which the application sends a datagram / writes one byte on a stream (opened at start-up)
+    dg: Vec<u64>,
+    pw: Vec<u64>,
 }
 
 /// Answer delays as one token: `-` = empty list, `x` = this ping is never answered.
@@ -437,7 +476,7 @@ fn csv(v: &[u64]) -> String {
 
 impl Case {
     fn line(&self) -> String {
-        format!(
+        let mut l = format!(
             "case calls={} delays={} rest={} extra={} pp={} h={} silent={}",
             calls_line(&self.calls),
             delays_tok(&self.delays),
@@ -446,14 +485,29 @@ impl Case {
             csv(&self.pp),
             self.horizon,
             u8::from(self.silent)
-        )
+        );
+        // (only when used: older corpus lines and replays stay valid as they are)
+        if let Some(b) = self.block {
+            l.push_str(&format!(" block={b} wedge={}", u8::from(self.wedge)));
+        }
+        if !self.dg.is_empty() {
+            l.push_str(&format!(" dg={}", csv(&self.dg)));
+        }
+        if !self.pw.is_empty() {
+            l.push_str(&format!(" pw={}", csv(&self.pw)));
+        }
+        l
+    }
+    fn plain() -> Self {
+        Self { calls: vec![], delays: vec![], rest: None, extra: vec![], pp: vec![], horizon: 0, silent: false, block: None, wedge: false, dg: vec![], pw: vec![] }
     }
     fn parse(line: &str) -> Option<Self> {
         let mut it = line.split_whitespace();
         if it.next()? != "case" {
             return None;
         }
-        let mut c = Self { calls: vec![], delays: vec![], rest: None, extra: vec![], pp: vec![], horizon: 0, silent: false };
+        let mut c = Self::plain();
+        let list = |v: &str| -> Option<Vec<u64>> { if v == "-" { Some(vec![]) } else { v.split(',').map(|d| d.parse().ok()).collect() } };
         for kv in it {
             let (k, v) = kv.split_once('=')?;
             match k {
@@ -464,12 +518,21 @@ impl Case {
                 "pp" => c.pp = if v == "-" { vec![] } else { v.split(',').map(|d| d.parse().ok()).collect::<Option<Vec<_>>>()? },
                 "h" => c.horizon = v.parse().ok()?,
                 "silent" => c.silent = v == "1",
+                "block" => c.block = Some(v.parse().ok()?),
+                "wedge" => c.wedge = v == "1",
+                "dg" => c.dg = list(v)?,
+                "pw" => c.pw = list(v)?,
                 _ => return None,
             }
         }
         Some(c)
     }
-    fn delay(&self, k: usize) -> Option<u64> {
+    /// Answer delay of ping number `k` (sent at `k * iv`): a ping that is due once the sink is blocked
+    /// never reaches the peer.
+    fn delay(&self, k: usize, iv: u64) -> Option<u64> {
+        if self.block.is_some_and(|b| k as u64 * iv >= b) {
+            return None;
+        }
         self.delays.get(k).copied().unwrap_or(self.rest)
     }
 }
@@ -519,12 +582,40 @@ fn run_real(case: &Case) -> Result<Obs, String> {
                 waker: None,
                 closed: false,
                 silent_after_close: case2.silent,
+                block_at: case2.block,
+                wedge_close: case2.wedge,
+                inbound: std::collections::VecDeque::new(),
                 shared: sh2.clone(),
             };
             let opts = build_real(&calls);
             let rng = rand::rngs::SmallRng::seed_from_u64(7);
             let (mux, taskdata) = Multiplexor::new_detailed::<_, Ti>(ws, opts, rng);
+            let mux = Arc::new(mux);
             let mut handle = tokio::spawn(taskdata.into_task());
+            if !case2.dg.is_empty() || !case2.pw.is_empty() {
+                // application traffic: datagrams and one-byte stream writes at the scripted times (they
+                // queue behind each other, and behind nothing else, on the endpoint's outbound queue)
+                let m2 = mux.clone();
+                let mut events: Vec<(u64, bool)> = case2.dg.iter().map(|t| (*t, false)).chain(case2.pw.iter().map(|t| (*t, true))).collect();
+                events.sort_unstable();
+                let want_stream = !case2.pw.is_empty();
+                tokio::spawn(async move {
+                    use tokio::io::AsyncWriteExt;
+                    let mut stream = if want_stream { m2.new_stream_channel(b"h", 80).await.ok() } else { None };
+                    for (t, is_write) in events {
+                        tokio::time::sleep_until(start + Duration::from_millis(t)).await;
+                        if is_write {
+                            if let Some(st) = stream.as_mut() {
+                                let _ = st.write_all(b"x").await;
+                            }
+                        } else {
+                            let d = penguin_mux::Datagram { flow_id: 7, target_host: bytes::Bytes::from_static(b"h"), target_port: 53, data: bytes::Bytes::from_static(b"payload") };
+                            let _ = m2.send_datagram(d).await;
+                        }
+                    }
+                    std::future::pending::<()>().await;
+                });
+            }
             let res = tokio::time::timeout(Duration::from_millis(case2.horizon), &mut handle).await;
             let at = u64::try_from(Instant::now().saturating_duration_since(start).as_millis()).expect("ms");
             let close_at = sh2.lock().expect("lock").close_at;
@@ -565,7 +656,9 @@ fn obs_line(o: &Obs) -> String {
 
 fn model_req(case: &Case, eff: &Eff) -> String {
     let mut s = format!(
-        "run {} {} {} {} {}",
+        "{} {} {} {} {} {}",
+        // `runb <block>`: pings due once the sink is blocked reach neither the sink nor the peer
+        case.block.map_or_else(|| "run".to_string(), |b| format!("runb {b}")),
         od_tok(eff.interval),
         od_tok(eff.timeout),
         case.horizon,
@@ -622,7 +715,10 @@ fn run_oracle(case: &Case, o: &Obs) -> Option<(String, String)> {
         }
         expect += iv;
     }
-    if expect < end || (!timed_out && expect == end) {
+    // (once the sink is blocked no ping can be handed to it: pings are demanded for the ticks before that)
+    let ping_end = case.block.map_or(end, |b| b.min(end));
+    let blocked_by_end = case.block.is_some_and(|b| b <= end);
+    if expect < ping_end || (!timed_out && expect == end && !blocked_by_end) {
         return Some(("ping-missing".into(), format!("{cfg}: no ping at {expect} ms although the connection lived until {end} ms")));
     }
     if let Exit::Timeout { close_at, exit_at } = &o.exit {
@@ -637,7 +733,10 @@ fn run_oracle(case: &Case, o: &Obs) -> Option<(String, String)> {
         };
         let since = end - last_pong;
         // every ping sent so far was answered within T => no timeout allowed
-        let sent: Vec<Option<u64>> = (0..o.pings.len()).map(|k| case.delay(k)).collect();
+        // (with a blocked sink the pings issued at the ticks before `end` count, handed to the sink or not:
+        // one that never left has not been answered)
+        let issued = if case.block.is_some() { end.div_ceil(iv) as usize } else { o.pings.len() };
+        let sent: Vec<Option<u64>> = (0..issued).map(|k| case.delay(k, iv)).collect();
         if tv >= iv && sent.iter().all(|d| d.is_some_and(|d| d <= tv)) {
             let key = if tv % iv == 0 { "live-peer-timeout" } else { "live-peer-timeout-T-not-multiple-of-I" };
             return Some((
@@ -665,6 +764,21 @@ fn run_oracle(case: &Case, o: &Obs) -> Option<(String, String)> {
                 format!("{cfg}: last pong at {last_pong} ms, still no timeout at {end} ms (> T + I later)"),
             ));
         }
+    }
+    if let Exit::Hung { close_at } = &o.exit {
+        // the timeout was detected (the task began to close the transport) but the task never returned:
+        // the connection is not terminated, no pending call ever fails. Under the paused clock "not
+        // returned at the horizon" means every future of the task is parked for good.
+        let why = if case.wedge && case.block.is_some_and(|b| b <= *close_at) {
+            "wind-down-stuck-on-blocked-sink"
+        } else {
+            "task-stuck-after-timeout"
+        };
+        return Some((
+            format!("{why} {cfg}"),
+            format!("{cfg}: keepalive timeout detected at {close_at} ms (the task started closing the transport) but the task had not returned at {} ms and never will: {}", case.horizon,
+                if why == "wind-down-stuck-on-blocked-sink" { "wind_down awaits poll_close, which cannot complete while the sink is blocked (a close that has to flush first); the connection is never reported as ended" } else { "it is parked in wind_down" }),
+        ));
     }
     None
 }
@@ -776,7 +890,33 @@ fn gen_case(r: &mut Rng) -> Case {
         1 => (0..r.range(1, 6)).map(|_| r.range(0, horizon)).collect(),
         _ => vec![],
     };
-    Case { calls, delays, rest, extra, pp, horizon, silent: r.chance(1, 16) }
+    let mut c = Case { calls, delays, rest, extra, pp, horizon, silent: r.chance(1, 16), ..Case::plain() };
+    if r.chance(1, 10) {
+        // the peer answers k pings and then is gone while our sending direction backs up: from `block` on
+        // the sink accepts nothing more (with / without application traffic queued behind the pings,
+        // with a close that completes at once / that has to flush first)
+        let k = r.below(6);
+        if r.chance(2, 3) {
+            c.delays = (0..k).map(|_| Some(r.range(0, iv.min(tv)))).collect();
+            c.rest = None;
+        }
+        let block = match r.below(5) {
+            0 => (k * iv).saturating_sub(iv) + 1,
+            1 => k * iv,
+            2 => k * iv + r.range(1, iv - 1),
+            3 => (k * iv).saturating_sub(1),
+            _ => r.range(0, c.horizon),
+        };
+        c.block = Some(block);
+        c.wedge = r.chance(1, 2);
+        let times = |r: &mut Rng| -> Vec<u64> { let mut v: Vec<u64> = (0..r.range(1, 6)).map(|_| r.range(0, block + 2 * iv)).collect(); v.sort_unstable(); v };
+        if r.chance(2, 3) { c.dg = times(r); }
+        if r.chance(1, 3) { c.pw = times(r); }
+        if r.chance(3, 4) {
+            c.horizon = c.horizon.max(((block + tv) / iv + 3).min(200) * iv + 1);
+        }
+    }
+    c
 }
 
 fn gen_builder_seq(r: &mut Rng) -> Vec<Setter> {
@@ -947,6 +1087,9 @@ impl Ctx {
                     }
                 }
             }
+            if c.block.is_some() {
+                self.rep.count(&format!("run/sink-blocked/{}{}", if c.wedge { "close-must-flush" } else { "close-at-once" }, if c.dg.is_empty() && c.pw.is_empty() { "" } else { ",traffic-queued" }));
+            }
             if c.silent {
                 match &o.exit {
                     Exit::Hung { .. } => self.hung += 1,
@@ -1010,6 +1153,19 @@ fn shrink_case(c: &Case, key: String, why: String) -> (Case, String, String) {
     }
     if cur.silent && same(&Case { silent: false, ..cur.clone() }) {
         cur.silent = false;
+    }
+    if !cur.dg.is_empty() && same(&Case { dg: vec![], ..cur.clone() }) {
+        cur.dg = vec![];
+    }
+    if !cur.pw.is_empty() && same(&Case { pw: vec![], ..cur.clone() }) {
+        cur.pw = vec![];
+    }
+    if cur.wedge && same(&Case { wedge: false, ..cur.clone() }) {
+        cur.wedge = false;
+    }
+    if cur.block.is_some() && same(&Case { block: None, wedge: false, ..cur.clone() }) {
+        cur.block = None;
+        cur.wedge = false;
     }
     if let Some((i, _)) = spec_config(&cur.calls).and_then(|(i, t)| i.map(|i| (i, t))) {
         if i > 0 {
@@ -1194,20 +1350,46 @@ enabled and at least two ticks inside the horizon; distinct by content";
                     (vec![], None),
                     (vec![], Some(tv + 1)),
                 ] {
-                    grid.push(Case { calls: calls.clone(), delays, rest, extra: vec![], pp: vec![], horizon: (tv / iv + 9) * iv + 1, silent: false });
+                    grid.push(Case { calls: calls.clone(), delays, rest, extra: vec![], pp: vec![], horizon: (tv / iv + 9) * iv + 1, silent: false, ..Case::plain() });
                 }
             }
         }
     }
     // disabled, zero interval, transport silent after close
-    grid.push(Case { calls: vec![], delays: vec![], rest: Some(0), extra: vec![5], pp: vec![], horizon: 60_001, silent: false });
-    grid.push(Case { calls: vec![Setter::T(Some(5))], delays: vec![], rest: None, extra: vec![], pp: vec![], horizon: 60_001, silent: false });
-    grid.push(Case { calls: vec![Setter::I(Some(10)), Setter::I(None)], delays: vec![], rest: None, extra: vec![], pp: vec![], horizon: 601, silent: false });
-    grid.push(Case { calls: vec![Setter::I(Some(0)), Setter::T(Some(5))], delays: vec![], rest: None, extra: vec![], pp: vec![], horizon: 101, silent: false });
-    grid.push(Case { calls: vec![Setter::I(Some(1000)), Setter::T(Some(2000))], delays: vec![], rest: None, extra: vec![], pp: vec![], horizon: 20_001, silent: true });
+    grid.push(Case { calls: vec![], delays: vec![], rest: Some(0), extra: vec![5], pp: vec![], horizon: 60_001, silent: false, ..Case::plain() });
+    grid.push(Case { calls: vec![Setter::T(Some(5))], delays: vec![], rest: None, extra: vec![], pp: vec![], horizon: 60_001, silent: false, ..Case::plain() });
+    grid.push(Case { calls: vec![Setter::I(Some(10)), Setter::I(None)], delays: vec![], rest: None, extra: vec![], pp: vec![], horizon: 601, silent: false, ..Case::plain() });
+    grid.push(Case { calls: vec![Setter::I(Some(0)), Setter::T(Some(5))], delays: vec![], rest: None, extra: vec![], pp: vec![], horizon: 101, silent: false, ..Case::plain() });
+    grid.push(Case { calls: vec![Setter::I(Some(1000)), Setter::T(Some(2000))], delays: vec![], rest: None, extra: vec![], pp: vec![], horizon: 20_001, silent: true, ..Case::plain() });
     // a peer that keeps pinging but never answers (link dead in one direction, or a pinging intermediary)
-    grid.push(Case { calls: vec![Setter::I(Some(1000)), Setter::T(Some(2000))], delays: vec![], rest: None, extra: vec![], pp: (0..40).map(|k| 250 + k * 500).collect(), horizon: 20_001, silent: false });
-    grid.push(Case { calls: vec![Setter::I(Some(1000)), Setter::T(Some(3000))], delays: vec![Some(10), Some(10)], rest: None, extra: vec![], pp: (0..40).map(|k| k * 1000).collect(), horizon: 20_001, silent: false });
+    grid.push(Case { calls: vec![Setter::I(Some(1000)), Setter::T(Some(2000))], delays: vec![], rest: None, extra: vec![], pp: (0..40).map(|k| 250 + k * 500).collect(), horizon: 20_001, silent: false, ..Case::plain() });
+    grid.push(Case { calls: vec![Setter::I(Some(1000)), Setter::T(Some(3000))], delays: vec![Some(10), Some(10)], rest: None, extra: vec![], pp: (0..40).map(|k| k * 1000).collect(), horizon: 20_001, silent: false, ..Case::plain() });
+    // the peer answers k pings at once and is then gone while our sending direction is backed up (the
+    // sink accepts nothing from just after ping k-1 on), with and without application traffic queued
+    // behind the pings, with a close that completes at once / that has to flush first
+    for &iv in &[10u64, 1000] {
+        for tv in [iv, 2 * iv, 3 * iv] {
+            for k in [0u64, 2, 3] {
+                let block = if k == 0 { 0 } else { (k - 1) * iv + 1 };
+                for traffic in 0..3 {
+                    for wedge in [false, true] {
+                        let around: Vec<u64> = (0..6).map(|j| block.saturating_sub(iv) + j * iv / 2).collect();
+                        grid.push(Case {
+                            calls: vec![Setter::I(Some(iv)), Setter::T(Some(tv))],
+                            delays: vec![Some(0); k as usize],
+                            rest: None,
+                            horizon: ((block + tv) / iv + 6) * iv + 1,
+                            block: Some(block),
+                            wedge,
+                            dg: if traffic >= 1 { around.clone() } else { vec![] },
+                            pw: if traffic == 2 { around.clone() } else { vec![] },
+                            ..Case::plain()
+                        });
+                    }
+                }
+            }
+        }
+    }
     cx.run_batch(&grid, "grid", threads);
 
     let mut rr = rng.fork(2);
